@@ -47,4 +47,20 @@ META['C02'] = {
     'technique': 'Coq proof: implementation loop = declarative spec (8-mask case analysis lifted over all trees) + extracted-model correspondence',
 }
 
+META['C01'] = {
+    'text': ("Coq: (i) theorem parse_layout — the parser model inverts the BOC byte layout for every header variant "
+             "(three magics, index/CRC/cache bits, any fitting size/offset widths, stored hashes, any absent counter), "
+             "every cell order with forward references and every root list, so bags written by other conforming "
+             "implementations parse to the cells they encode (with C02: to the hashes intended); (ii) the serialiser "
+             "(importCell / reorderCells / revisit / serializeBoc) is modelled statement by statement, extracted and "
+             "compared byte-for-byte with Cell.ToBocCustom for all 8 option combinations, and every output carries a "
+             "certificate evaluated by the extracted proved parser (parses to one root with the original hash, every "
+             "cell stored once, cell count = number of distinct reachable sub-cells) — the reordering itself is "
+             "validated per output, not proved for all inputs."),
+    'design_ref': 'DESIGN.md §6 C01',
+    'note': ("Trusted: Coq kernel, extraction, drivers, Go harness, the layout spec. 'Stored once' is up to SHA-256 "
+             "collisions. < 2^24 cells. The serialiser half is translation-validation strength (certificate per output)."),
+    'technique': 'Coq proof of parser-inverts-layout + byte-exact extracted serialiser model with per-output certificate',
+}
+
 NOT_APPLICABLE = []
